@@ -34,6 +34,7 @@ func clientQs(kind int, thorough bool) []int {
 }
 
 func clientJobs(harness string, thorough bool, chunkSet []int, withExc bool, extra map[string]int) []sym.Job {
+	allCuts := harness == "VH_C07_fragmented" || harness == "VH_C19_hooks"
 	var js []sym.Job
 	for mode := 0; mode < 3; mode++ {
 		for kind := 0; kind < 10; kind++ {
@@ -61,6 +62,29 @@ func clientJobs(harness string, thorough bool, chunkSet []int, withExc bool, ext
 						pm[k] = v
 					}
 					js = append(js, sym.Job{Harness: harness, Params: pm})
+				}
+				// a mid-sized reply of every kind with a long reply (and in thorough also the largest one): two reads with
+				// EVERY position as the boundary (chunks=102), so that a cut in the middle of a long reply is decided as
+				// well, not only argued
+				qs := clientQs(kind, thorough)
+				if allCuts && q == qs[len(qs)-1] && extra["fault"] == 0 {
+					var aq []int
+					switch kind {
+					case 0, 1:
+						aq = ints(500)
+					case 2, 3, 9:
+						aq = ints(30)
+					}
+					if thorough && len(aq) > 0 {
+						aq = append(aq, q)
+					}
+					for _, q2 := range aq {
+						pm := map[string]int{"kind": kind, "mode": mode, "q": q2, "chunks": 102, "exc": 0}
+						for k, v := range extra {
+							pm[k] = v
+						}
+						js = append(js, sym.Job{Harness: harness, Params: pm, AbstractCRC: mode != 0})
+					}
 				}
 			}
 		}
@@ -94,8 +118,8 @@ func init() {
 			return js
 		},
 		Bounds: map[string]string{
-			"quick":    "length formulas: 18 request types, every legal quantity symbolic; exchanges: 10 functions x {TCP client, RTU network client, serial client} x reply sizes {min, mid, max} x up to 2 reads with the cut position case-split over {0..12, E-1, E, E+1, L-3, L-2, L-1} and an optional empty timed-out read before each chunk (serial port: reported either as a deadline error or as io.EOF), the first chunk optionally delivered together with a deadline error; for the smallest reply of every function (at most 16 bytes, where that set is every position) also every pair of cut positions (3 reads); reply payload bytes symbolic; exception replies with symbolic code",
-			"thorough": "up to 3 reads (two cut positions); more reply sizes",
+			"quick":    "length formulas: 18 request types, every legal quantity symbolic; exchanges: 10 functions x {TCP client, RTU network client, serial client} x reply sizes {min, mid, max} x up to 2 reads with the cut position case-split over {0..12, E-1, E, E+1, L-3, L-2, L-1} and an optional empty timed-out read before each chunk (serial port: reported either as a deadline error or as io.EOF), the first chunk optionally delivered together with a deadline error; for the smallest reply of every function (at most 16 bytes, where that set is every position) also every pair of cut positions (3 reads); for a mid-sized long reply (500 coils / 30 registers, about 70 bytes) of FC1-4 and FC23 two reads with every position 0..L-1 as the boundary; reply payload bytes symbolic; exception replies with symbolic code",
+			"thorough": "up to 3 reads (two cut positions); more reply sizes; every cut position also for the largest reply (259 bytes) of FC1-4/FC23",
 		},
 		Outside:     []string{"more reads than the bound; cut positions outside the case-split set (positions between 13 and E-2 behave like 12: no comparison in the loop distinguishes them)", "transports violating the io.Reader contract", "real timer behaviour: the timer fires only when the harness lets time pass (after the reply has been delivered completely)"},
 		Assumptions: []string{"time.After readiness is controlled by the harness (vndAdvanceTime); time.Sleep is a no-op; sync.RWMutex sequential model"},
@@ -203,8 +227,8 @@ func init() {
 			return js
 		},
 		Bounds: map[string]string{
-			"quick":    "10 functions x 3 clients x reply sizes {min,mid,max}; complete reply in up to 2 reads (cut positions case-split, optional empty timed-out reads) incl. exception replies, or a case-split prefix followed by EOF / an I/O error; each script is run once with recording hooks and once without hooks",
-			"thorough": "up to 3 reads; more reply sizes",
+			"quick":    "10 functions x 3 clients x reply sizes {min,mid,max}; complete reply in up to 2 reads (cut positions case-split, optional empty timed-out reads; for a mid-sized long reply of FC1-4/FC23 every position 0..L-1) incl. exception replies, or a case-split prefix followed by EOF / an I/O error; each script is run once with recording hooks and once without hooks",
+			"thorough": "up to 3 reads; more reply sizes; every cut position also for the largest reply of FC1-4/FC23",
 		},
 		Outside:     []string{"more reads than the bound; cut positions outside the case-split set"},
 		Assumptions: []string{"time.After readiness controlled by the harness"},
